@@ -1,16 +1,23 @@
 use crate::core::Prop;
 
+pub mod c03;
 pub mod c04;
 pub mod c05;
 pub mod c06;
+pub mod c07;
+pub mod c08;
+pub mod c09;
 pub mod c10;
 pub mod c11;
+pub mod c12;
 pub mod c13;
 pub mod c14;
 pub mod c15;
 pub mod c16;
 pub mod c17;
 pub mod c18;
+pub mod c19;
+pub mod c20;
 pub mod c21;
 pub mod c22;
 pub mod c23;
@@ -22,9 +29,10 @@ pub mod c28;
 pub mod c29;
 #[cfg(feature = "cli")]
 pub mod c30;
+pub mod modelrepo;
 
 pub fn all() -> Vec<Prop> {
-    vec![c04::PROP, c05::PROP, c06::PROP, c10::PROP, c11::PROP, c13::PROP, c14::PROP, c15::PROP, c16::PROP, c17::PROP, c18::PROP, c21::PROP, c22::PROP, c23::PROP, c24::PROP, c25::PROP, c26::PROP, c27::PROP, c28::PROP, c29::PROP]
+    vec![c03::PROP, c04::PROP, c05::PROP, c06::PROP, c07::PROP, c08::PROP, c09::PROP, c10::PROP, c11::PROP, c12::PROP, c13::PROP, c14::PROP, c15::PROP, c16::PROP, c17::PROP, c18::PROP, c19::PROP, c20::PROP, c21::PROP, c22::PROP, c23::PROP, c24::PROP, c25::PROP, c26::PROP, c27::PROP, c28::PROP, c29::PROP]
 }
 
 /// Properties served by the `vcheck-cli` binary (needs the `cli` feature).
